@@ -399,6 +399,16 @@ pub fn render_vcf_header(h: &vcf::Header) -> String {
         }
     }
     s.push(']');
+    // the string maps a BCF writer / `StringMaps::try_from` derives from the header (honours explicit IDX fields)
+    match vcf::header::StringMaps::try_from(h) {
+        Ok(sm) => {
+            let count = |m: &dyn Fn(usize) -> bool| (0..100_000).take_while(|&i| m(i)).count();
+            let _ = write!(s, " derived_string_maps=strings:{} contigs:{}", count(&|i| sm.strings().get_index(i).is_some()), count(&|i| sm.contigs().get_index(i).is_some()));
+        }
+        Err(e) => {
+            let _ = write!(s, " derived_string_maps=Err({e})");
+        }
+    }
     format!("header: {}", esc(s))
 }
 
